@@ -710,6 +710,21 @@ func (ex *Exec) specCall(x ECall, env *SpecEnv) Val {
 		need(1)
 		return Scalar{toReal(ex.scalar(argv(0))), types.Typ[types.Float64]}
 	}
+	if gf, ok := ex.prog.Contracts.Ghosts[id.Name]; ok {
+		need(1)
+		rt, err := ex.prog.lookupType(gf.Ret, env.pkg)
+		if err != nil {
+			ex.specFail("%v", err)
+		}
+		a := ex.scalar(argv(0))
+		if a.Sort == SIface {
+			a = IfVal(a)
+		}
+		name := "G|" + gf.Name
+		heapLeafTypes[name] = rt
+		h := env.st.heap(name, ArraySort(sortOf(rt)))
+		return Scalar{Select(h, a), rt}
+	}
 	if g, ok := env.ghosts[id.Name]; ok {
 		var args []Term
 		for i := range x.Args {
